@@ -67,7 +67,7 @@ const (
 // retryKinds are the catalogue entries built from a sealed spec: they apply equally to the hello that follows a
 // HelloRetryRequest (sealed at sequence number 1 with an empty enc).
 func retryKind(name string) bool {
-	for _, p := range []string{"outer-has-ech_outer_extensions", "outer-sni-not-public-name", "inner-without-ech-ext", "inner-with-outer-type-ech", "inner-no-tls13", "nonzero-padding", "refs-", "inner-malformed-"} {
+	for _, p := range []string{"outer-has-ech_outer_extensions", "outer-sni-not-public-name", "inner-without-ech-ext", "inner-with-outer-type-ech", "inner-no-tls13", "nonzero-padding", "refs-", "inner-malformed-", "framing-"} {
 		if strings.HasPrefix(name, p) {
 			return true
 		}
@@ -108,6 +108,19 @@ func generateMode(key echx.KeyPair, b base, thorough, retry bool) (out []fault) 
 	}
 	good := s.Build()
 	nOuter := len(s.Outer.Exts)
+	if retry {
+		// F0 (retried hello only) a VALID second hello that is framed illegally over several records: a record of another content
+		// type between its fragments, an empty fragment, a handshake header announcing more than a hello may hold. These fail while
+		// the message is being collected - another code path than a complete hello that is then refused
+		gm := good.Outer.Msg()
+		for _, ct := range []byte{20, 21, 23} {
+			add("framing-foreign-record-between-fragments", fmt.Sprint(ct), []string{UM}, cat(tlsref.Record(22, 0x0303, gm[:40]), tlsref.Record(ct, 0x0303, []byte{1}), tlsref.Record(22, 0x0303, gm[40:])))
+		}
+		add("framing-empty-fragment", "", []string{DE}, cat(tlsref.Record(22, 0x0303, gm[:40]), tlsref.Record(22, 0x0303, nil), tlsref.Record(22, 0x0303, gm[40:])))
+		big := slices.Clone(gm)
+		big[1], big[2], big[3] = 1, 0, 1 // 65537
+		add("framing-announced-length-over-limit", "", []string{DE}, tlsref.Record(22, 0x0303, big[:60]))
+	}
 
 	// F1 ech_outer_extensions in the outer hello, at every position (with a valid ECH payload re-sealed over it, and in a hello without ECH)
 	for pos := 0; pos <= nOuter; pos++ {
@@ -240,6 +253,12 @@ func generateMode(key echx.KeyPair, b base, thorough, retry bool) (out []fault) 
 				add("nonzero-padding", fmt.Sprintf("len%d byte%d bit%d", padLen, i, bit), []string{IP}, s7.Build().Outer.Record())
 			}
 		}
+	}
+	// ... and several non-zero bytes at once, among them ones whose sum, xor or product is zero in 8 bits (multi-fault)
+	for name, pad := range map[string][]byte{"80+80": {0x80, 0x80}, "ff+01": {0, 0xff, 0, 1}, "aa^aa": {0xaa, 0, 0xaa}, "256x01": bytes.Repeat([]byte{1}, 256), "256xff": bytes.Repeat([]byte{0xff}, 256), "10*10": {0x10, 0x10}, "all-ff": bytes.Repeat([]byte{0xff}, 7)} {
+		s7 := s
+		s7.Padding = pad
+		add("nonzero-padding-multi", name, []string{IP}, s7.Build().Outer.Record())
 	}
 	// F8 reference-list faults (only meaningful with compression)
 	if b.Compress {
@@ -566,7 +585,7 @@ func Run(r *ev.Run) {
 						f.retryPartial = false
 					}
 					// one representative of each kind also with the second hello framed in two records (first fragment of 1..4 and 40 bytes)
-					if !seenKind[f.Name] {
+					if !seenKind[f.Name] && !strings.Contains(f.Name, "framing-") { // (framing faults are several records already)
 						seenKind[f.Name] = true
 						for _, cut := range []int{1, 2, 3, 4, 40} {
 							f.retryFrag = cut
@@ -706,3 +725,11 @@ func multi(key echx.KeyPair, thorough bool) []fault {
 }
 
 func detEph(label string) *ecdh.PrivateKey { return hpkeref.DetKey("eph:" + label) }
+
+func cat(parts ...[]byte) []byte {
+	var out []byte
+	for _, p := range parts {
+		out = append(out, p...)
+	}
+	return out
+}
